@@ -31,7 +31,7 @@ def programs(out, tier, prop, versions, per_version, rng, want_generated=True, l
             out.add('states', r3.distinct)
             out.add('transitions', r3.generated)
             # layout strings: all of <= 4 symbols (<= 5 in thorough) + a sample of the next length
-            nl = 4 if tier == 'quick' else 5
+            nl = 4          # 13^4 = 28 561 strings; the 5-symbol ones are sampled (thorough: 60 000)
             lay, r4 = inputs.tlc_strings(sc.sub('y'), nl + 1, inputs.LAYOUT_ALPHABET)
             out.add('states', r4.distinct)
             out.add('transitions', r4.generated)
